@@ -341,8 +341,112 @@ fn run(e: &'static Engine, workers: usize, p: Prim, bystander: bool, cancel: boo
     e.note(&format!("{}tg={} wg={}", out, tg, wg));
 }
 
+static IN_CS: AtomicU32 = AtomicU32::new(0);
+static CS_OVERLAP: AtomicBool = AtomicBool::new(false);
+static DTOR_RAN: AtomicBool = AtomicBool::new(false);
+
+/// owned by the target's stack: its destructor takes a may Mutex (as `WaitGroup`'s own Drop does), a Semphore permit, or
+/// receives from a channel - blocking calls made while the coroutine unwinds from its cancellation
+struct BlockOnDrop(Arc<Shared>, u8);
+impl Drop for BlockOnDrop {
+    fn drop(&mut self) {
+        match self.1 {
+            0 => {
+                let mut g = self.0.m.lock().unwrap();
+                if IN_CS.fetch_add(1, Ordering::SeqCst) != 0 {
+                    CS_OVERLAP.store(true, Ordering::SeqCst);
+                }
+                *g += 1;
+                coroutine::yield_now();
+                IN_CS.fetch_sub(1, Ordering::SeqCst);
+            }
+            1 => self.0.sem.wait(),
+            _ => self.0.flag.wait(),
+        }
+        DTOR_RAN.store(true, Ordering::SeqCst);
+    }
+}
+
+/// the target is cancelled while parked; the destructor of a value on its stack then blocks on something the main thread
+/// provides a little later. The unwind must wait for it like any other code would - no second panic (= abort of the
+/// process), no lock taken without owning it - and the join must report Cancel.
+fn blocking_destructor(e: &'static Engine, workers: usize, what: u8) {
+    rt_init(workers);
+    let (_tx3, rx3) = may::sync::spsc::channel::<u32>();
+    let s = Arc::new(Shared {
+        m: Mutex::new(0),
+        sem: Semphore::new(0),
+        cv: Condvar::new(),
+        cvm: Mutex::new(false),
+        rw: RwLock::new(0),
+        flag: SyncFlag::new(),
+        bar: may::sync::Barrier::new(2),
+        rx3: std::sync::Mutex::new(Some(rx3)),
+    });
+    let g = if what == 0 { Some(s.m.lock().unwrap()) } else { None };
+    e.begin();
+    let s1 = s.clone();
+    let t = go!(move || {
+        let _a = Tracked::new(1);
+        let _d = BlockOnDrop(s1, what);
+        loop {
+            coroutine::park();
+        }
+    });
+    e.quiesce();
+    unsafe { t.coroutine().cancel() };
+    // the target unwinds and its destructor blocks
+    e.quiesce();
+    match what {
+        0 => {
+            // the main thread is still inside its critical section
+            if IN_CS.fetch_add(1, Ordering::SeqCst) != 0 {
+                CS_OVERLAP.store(true, Ordering::SeqCst);
+            }
+            e.sched_point();
+            IN_CS.fetch_sub(1, Ordering::SeqCst);
+            drop(g);
+        }
+        1 => s.sem.post(),
+        _ => s.flag.fire(),
+    }
+    match t.join() {
+        Ok(()) => e.fail("cancel_ignored", "the parked target returned normally"),
+        Err(p) => {
+            if p.downcast_ref::<generator::Error>().is_none() {
+                e.fail("unexpected_panic", &format!("the target ended with a panic that is not Cancel: {:?}", e.panics().last()));
+            }
+        }
+    }
+    if !DTOR_RAN.load(Ordering::SeqCst) {
+        e.fail("destructor_cut_short", "the blocking destructor did not run to its end");
+    }
+    if CS_OVERLAP.load(Ordering::SeqCst) {
+        e.fail("mutual_exclusion", "the destructor was inside the mutex while the main thread still held it");
+    }
+    if what == 0 {
+        match s.m.try_lock() {
+            Ok(g) => {
+                if *g != 1 {
+                    e.fail("lost_update", &format!("mutex value {} after one critical section", *g));
+                }
+            }
+            Err(TryLockError::WouldBlock) => e.fail("not_released", "the mutex is still locked after everybody finished"),
+            Err(TryLockError::Poisoned(_)) => e.fail("poisoned", "the cancellation unwind poisoned the mutex"),
+        };
+    }
+    e.quiesce();
+    check_drops(e, 1..=1);
+    e.note("cancel");
+}
+
 pub fn build(quick: bool) -> Vec<Scenario> {
     let mut v = vec![];
+    for w in [1usize, 2] {
+        for (what, name) in [(0u8, "mutex"), (1, "sem"), (2, "flag")] {
+            v.push(Scenario::new("C09", "blocking_destructor", format!("cancel.destructor_blocks_on_{}.w{}", name, w), Arc::new(move |e| blocking_destructor(e, w, what))));
+        }
+    }
     for w in [1usize, 2] {
         for (p, by) in [
             (Prim::Park, false),
